@@ -1464,7 +1464,7 @@ REGISTRY = {
 
 
 def run_extra(pid, cx, rep):
-    from rules import r17
-    for rid, desc, fn in REGISTRY.get(pid, []) + r17.REGISTRY.get(pid, []):
+    from rules import r17, r18
+    for rid, desc, fn in REGISTRY.get(pid, []) + r17.REGISTRY.get(pid, []) + r18.REGISTRY.get(pid, []):
         rep.rule(rid, desc)
         fn(cx, rep, rid)
